@@ -25,7 +25,7 @@ class Undecided(Exception):
 # primitives that only move data around
 STRUCT = {
     "broadcast_in_dim", "reshape", "transpose", "concatenate", "slice", "squeeze", "pad", "rev",
-    "split", "stack", "unstack", "dynamic_slice", "dynamic_update_slice", "gather", "scatter", "expand_dims",
+    "split", "stack", "unstack", "tile", "dynamic_slice", "dynamic_update_slice", "gather", "scatter", "expand_dims",
     "select_n", "copy", "copy_p", "real", "reduce_precision", "optimization_barrier",
 }
 # leaf primitives that must be evaluated exactly even on concrete operands (floats)
